@@ -279,7 +279,8 @@ impl std::fmt::Display for InvalidProofKind {
                 leaf_index,
                 tree_size,
             } => {
-                let tree_index = crate::leaf_index_to_tree_index(*leaf_index);
+                // the tree index of a very large leaf index does not fit `usize`
+                let tree_index = (*leaf_index as u128).saturating_mul(2);
                 f.write_fmt(format_args!(
                     "leaf index {leaf_index} corresponding to tree index {tree_index} exceeds \
                      tree of size {tree_size}"
@@ -546,7 +547,13 @@ impl Proof {
         let mut i = crate::leaf_index_to_tree_index(*leaf_index);
         let mut acc = leaf_hash;
         for sibling in audit_path.chunks(32) {
-            let parent = crate::complete_parent(i, tree_size.get());
+            // An audit path with more segments than there are nodes between the leaf and the root
+            // cannot be walked inside the tree. The surplus segments are still hashed in so that
+            // the reconstructed hash is an incorrect one rather than the walk panicking.
+            let Some(parent) = crate::checked_complete_parent(i, tree_size.get()) else {
+                acc = crate::combine(&acc, sibling);
+                continue;
+            };
             if parent > i {
                 acc = crate::combine(&acc, sibling);
             } else {
